@@ -117,6 +117,14 @@ func (r *MemoryModelRegistry) RegisterModels(ctx context.Context, endpointURL st
 	default:
 	}
 
+	// validate the whole listing before touching any state, so that a rejected
+	// update leaves the previous attribution (listing, index, stats) intact
+	for _, model := range models {
+		if model != nil && model.Name == "" {
+			return domain.NewModelRegistryError("register_models", endpointURL, model.Name, fmt.Errorf("model name cannot be empty"))
+		}
+	}
+
 	r.mu.Lock()
 	defer r.mu.Unlock()
 
